@@ -304,6 +304,8 @@ impl LazyUpdate {
         where
             F: FnOnce(&mut World) + 'static,
         {
+            #[cfg(specs_verif)]
+            crate::verif::yield_point("lazy.exec.before_push");
             self.queue
                 .0
                 .push(Box::new(f));
@@ -338,6 +340,8 @@ impl LazyUpdate {
         where
             F: FnOnce(&mut World) + 'static,
         {
+            #[cfg(specs_verif)]
+            crate::verif::yield_point("lazy.exec_mut.before_push");
             self.queue.0.push(Box::new(f));
         }
     }
@@ -366,6 +370,12 @@ impl LazyUpdate {
         let entity = ent.create();
 
         LazyBuilder { entity, lazy: self }
+    }
+
+    /// Number of queued actions (verification hook).
+    #[cfg(specs_verif)]
+    pub fn verif_queue_len(&self) -> usize {
+        self.queue.0.len()
     }
 
     pub(super) fn clone(&self) -> Self {
